@@ -196,6 +196,26 @@ CLAIMED.update({
 NOT_APPLICABLE = {}
 
 
+CLAIMED.update({
+    "C03": dict(
+        engine="mirsem",
+        technique="symbolic execution of the rustc MIR of Context::is_super_pred_of (the predicate-implication judgement behind refinement subtyping) on operand shapes with "
+                  "unbounded symbolic integer bounds and symbolic atom kinds; closures, TyParamOrdering predicates and recursive calls are inlined from the same MIR dump, or the "
+                  "recursive calls are replaced by the induction hypothesis on opaque sub-predicates (one inductive step); z3 decides 'answer true implies set inclusion at an arbitrary "
+                  "integer'; counterexamples are rebuilt as Predicate values and replayed on the real function (and through erg check / erg run); callee contracts and the encoding are validated natively",
+        category="other",
+        text="Kernel-level partial claim: for every pair of refinement predicates over one integer variable built from I == n, I >= n, I <= n, I != n (every integer n), True/False, "
+             "and And/Or of those up to depth 2 (thorough: depth 3 and mixed nestings), z3 shows that whenever is_super_pred_of(Q, P) answers true every integer satisfying P satisfies Q; "
+             "in mode `rule` the sub-predicates are arbitrary (opaque) predicates and the combination rules (And/And, Or/Or, x/And, x/Or, And/x, Or/x) are shown sound given soundness on "
+             "the parts, i.e. one inductive step for trees of any depth. How structural_supertype_of reaches the judgement, bounds that are not integer literals (type variables: try_cmp "
+             "answers Any), Float bounds, and the Call/Attr/General* arms are not decided; nothing is claimed about completeness (rejecting a valid inclusion is not a violation).",
+        note="Trusts rustc's MIR dump, engines/mirsem.py + mirflow.py, z3, and contract models for Context::try_cmp / supertype_of_tp / TyParam equality / has_*_bound on integer literals, "
+             "Context::reduce_preds (a subset with the same intersection/union; every subset explored), Predicate::ands/ors, erg_common Set::iter/get_by and std Option/Iterator adaptors; the "
+             "scalar contracts are validated natively on 36 literal pairs per run and the whole encoding on ~300 concrete predicate pairs against the real function (cargo test on the scratch copy).",
+        design="0b/C03"),
+})
+
+
 def load_na():
     p = os.path.join(VERIF, "data", "not_applicable.json")
     return json.load(open(p))
@@ -244,7 +264,11 @@ def main():
              "kind_free_text": MIR},
             {"name": "py2smt", "path": "engines/py2smt.py", "serves_properties": sorted(p for p, c in CLAIMED.items() if "py2smt" in c["engine"]),
              "kind_free_text": PY},
-            {"name": "native", "path": "engines/native.py", "serves_properties": sorted(p for p, c in CLAIMED.items() if "mir2smt" in c["engine"]),
+            {"name": "mirsem", "path": "engines/mirsem.py", "serves_properties": sorted(p for p, c in CLAIMED.items() if "mirsem" in c["engine"]),
+             "kind_free_text": "symbolic execution of one rustc-MIR function with z3 over shape-concrete operands (engines/mirflow.py underneath): unmodelled calls are uninterpreted "
+                               "functions decided by congruence, closures and small callees are inlined from the same MIR dump, other callees get contract models stated in the evidence; "
+                               "switchInt arms are pruned by incremental feasibility queries; counterexamples are replayed natively before they are reported"},
+            {"name": "native", "path": "engines/native.py", "serves_properties": sorted(p for p, c in CLAIMED.items() if "mir2smt" in c["engine"] or "mirsem" in c["engine"]),
              "kind_free_text": "replay of solver counterexamples and translation-validation vectors against the real crate (cargo test on the scratch copy)"},
         ],
         "checks": checks,
